@@ -555,6 +555,46 @@ func c16R5(c *Ctx, rule string) {
 		}
 	}
 	c.Check(sameTx && len(callsIn(us, "(*go.etcd.io/bbolt.DB).Update")) == 1, rule, "credit read-modify-write in one transaction", c.atFn(us), "Gets and Puts share the db.Update closure", "credit is read in one transaction and written in another")
+	// both directions are charged for every status of an existing user: from the bucket lookup, every path to the next
+	// iteration (or the return) on which the bucket exists passes Put("UpCredit") and Put("DownCredit")
+	keyOf := func(v ssa.Value) string {
+		if cv, ok := v.(*ssa.Convert); ok {
+			v = cv.X
+		}
+		s, _ := strConst(v)
+		return s
+	}
+	for _, f := range us.AnonFuncs {
+		var lookup *ssa.Call
+		allInstrs(f, func(i ssa.Instruction) {
+			if call, ok := i.(*ssa.Call); ok && strings.HasSuffix(calleeName(&call.Call), "bbolt.Tx).Bucket") && lookup == nil {
+				lookup = call
+			}
+		})
+		if lookup == nil {
+			continue
+		}
+		for _, key := range []string{"UpCredit", "DownCredit"} {
+			k := key
+			isPut := func(i ssa.Instruction) bool {
+				call, ok := i.(*ssa.Call)
+				return ok && strings.HasSuffix(calleeName(&call.Call), "bbolt.Bucket).Put") && len(call.Call.Args) >= 3 && keyOf(call.Call.Args[1]) == k
+			}
+			miss := edgeSearch(f, lookup, func(a Atom) bool {
+				// the "user no longer exists" edge
+				return a.Kind == "cmp" && a.Op == token.EQL && ((a.X == ssa.Value(lookup) && isNilConst(a.Y)) || (a.Y == ssa.Value(lookup) && isNilConst(a.X)))
+			}, isPut, func(i ssa.Instruction) bool {
+				_, isRet := i.(*ssa.Return)
+				return isRet || i == ssa.Instruction(lookup)
+			})
+			where := ""
+			if miss != nil {
+				where = c.at(miss)
+			}
+			c.Check(miss == nil, rule, "every status of an existing user is charged to "+k, c.at(lookup), "every path from the bucket lookup to the next status passes Put("+k+")",
+				"a path from the bucket lookup reaches "+where+" (next status / return) without Put(\""+k+"\"): that interval's usage in this direction is never charged (the panel's counters are already reset)")
+		}
+	}
 }
 
 func isZero(v ssa.Value) bool {
